@@ -86,7 +86,9 @@ def gen_exchange(rng) -> dict:
             ex["split"] = [rng.choice([20, 40, 60]), rng.choice([0.5, 3.0])]
         elif r < 0.75:
             if ex["framing"] == "chunked":
-                ex["chunks"] = [100000]  # one chunk, so that the embedded message is contiguous on the wire
+                # (the embedded message must be contiguous on the wire: it sits in one big chunk, possibly after a small first one --
+                #  a read1(k) that gets only those three bytes has NOT reached the end of the body)
+                ex["chunks"] = rng.choice([[100000], [3, 100000]])
             # the tail of the body is itself a complete HTTP response and arrives late: if the caller lets go of this
             # response early, only the connection's own bookkeeping keeps that tail from answering the next request
             ex["body"] = {"tag": ex["body"]["tag"], "embed": True}
